@@ -1,4 +1,150 @@
-import IwModel.Model.KvApi
-/-! # C09 — iterating while the store changes (theorems follow) -/
+import IwModel.Lemmas.KvCur
+/-! # C09 — iterating while the store changes
+
+Property theorems only; helper lemmas live in `IwModel/Lemmas/KvCur.lean`. The model is the node
+layer of `Model/Kv.lean`: the chain `d.nodes`, the table of open cursors `d.curs`, the mutations
+`put / del / curSet / curDel` with the cursor fix-ups of `_sblk_addkv*`, `_sblk_rmkv`,
+`_lx_split_addkv` and `_lx_del_sblk_lw` (`fixAdd / fixRm / fixSplit / fixFront / fixDelNode`).
+
+Vocabulary (defined in `Lemmas/KvCur.lean`):
+* `CurOk ns p` — position `p` is usable on chain `ns` (`.at i j _`: slot `j` of node `i` exists;
+  the pseudo positions head / tail / void always);
+* `aheadN ns p` — the records NEXT has yet to return from `p`, in order: a suffix of `flatten ns`
+  (from the slot itself when `skip_next > 0`, from the following slot otherwise);
+* `aheadP ns p` — the records PREV has yet to return (it returns them from the back): a prefix;
+* `CursVia fix d d'` — the cursor table of `d'` is that of `d` with every position sent through
+  `fix`; so `fix p` is where *any* cursor standing at `p` stands afterwards;
+* `InsRel P ns ns' p p'` — `p'` is usable on `ns'` and, the records failing `P` (the newborn) filtered
+  out, `aheadN/aheadP` of `(ns', p')` equal those of `(ns, p)`;
+* `DelRel P ns ns' p p'` — `p'` is usable on `ns'` and `aheadN/aheadP` of `(ns', p')` are those of
+  `(ns, p)` with the records failing `P` (the removed one) filtered out;
+* `keyNe k r` — `r.1 ≠ k`; `setVal k v` — rewrite the value of key `k`.
+
+Known corner (finding F38): a cursor parked with `skip_next = -1` on the slot before a removed last
+slot counts a record inserted right after that slot as "ahead" although its key may sort before the
+key the cursor had reached. The statements below say what is true of the code as it is: nothing
+that was ahead is lost or repeated, only the newborn may be extra; `f38_witness` exhibits the
+corner on the model. -/
 namespace IwModel.C09
+open IwModel Kv
+
+section
+variable {K V : Type} {gt : K → K → Bool}
+
+/-! ### 1. moving on from any position -/
+
+/-- NEXT from any usable position: when it succeeds the cursor stands on a usable position whose
+    record is the first of what lay ahead, and the rest lies ahead of the new position; when it
+    reports not-found nothing lay ahead. -/
+theorem next_spec (d : Db K V) (hok : NodesOk d.nodes) (p : CPos) (hp : CurOk d.nodes p) :
+    (∀ p', curNext d p = (p', true) →
+      ∃ r, curRec d p' = some r ∧ aheadN d.nodes p = r :: aheadN d.nodes p' ∧ CurOk d.nodes p') ∧
+    (∀ p', curNext d p = (p', false) → aheadN d.nodes p = []) := by
+  have h := next_step d hok p hp
+  refine ⟨fun p' e => ?_, fun p' e => ?_⟩
+  · have := h.1 (by rw [e]); rwa [e] at this
+  · exact h.2 (by rw [e])
+
+/-- PREV, symmetric: it returns the last record of `aheadP`. -/
+theorem prev_spec (d : Db K V) (hok : NodesOk d.nodes) (p : CPos) (hp : CurOk d.nodes p) :
+    (∀ p', curPrev d p = (p', true) →
+      ∃ r, curRec d p' = some r ∧ aheadP d.nodes p = aheadP d.nodes p' ++ [r] ∧ CurOk d.nodes p') ∧
+    (∀ p', curPrev d p = (p', false) → aheadP d.nodes p = []) := by
+  have h := prev_step d hok p hp
+  refine ⟨fun p' e => ?_, fun p' e => ?_⟩
+  · have := h.1 (by rw [e]); rwa [e] at this
+  · exact h.2 (by rw [e])
+
+/-- Continuing a scan from any usable position: the successive NEXT calls return exactly `aheadN`,
+    in order, each record once, then not-found; and `aheadN` is strictly descending in key order
+    (so: in key order, without repetition). -/
+theorem scan_from (d : Db K V) (inv : NodeInv gt d.nodes) (p : CPos) (hp : CurOk d.nodes p) :
+    scan d (curNext d) ((aheadN d.nodes p).length + 1) p = ((aheadN d.nodes p).map some, true) ∧
+    Desc gt (aheadN d.nodes p) :=
+  ⟨scan_from_next d inv.1 _ p hp (Nat.lt_succ_self _), aheadN_desc inv.2 p⟩
+
+/-- … and backwards with PREV: exactly `aheadP`, from the back. -/
+theorem scan_back_from (d : Db K V) (inv : NodeInv gt d.nodes) (p : CPos) (hp : CurOk d.nodes p) :
+    scan d (curPrev d) ((aheadP d.nodes p).length + 1) p = ((aheadP d.nodes p).reverse.map some, true) ∧
+    Desc gt (aheadP d.nodes p) :=
+  ⟨scan_from_prev d inv.1 _ p hp (Nat.lt_succ_self _), aheadP_desc inv.2 p⟩
+
+/-- `aheadN`/`aheadP` are the suffix / prefix of the live records at the flat index of the slot,
+    with the flat index spelled out as a sum of node sizes. -/
+theorem ahead_at (ns : List (Node K V)) (i j : Nat) (s : Int) :
+    let f := ((ns.take i).map (·.recs.length)).sum + j
+    aheadN ns (.at i j s) = (if s > 0 then (flatten ns).drop f else (flatten ns).drop (f + 1)) ∧
+    aheadP ns (.at i j s) = (if s < 0 then (flatten ns).take (f + 1) else (flatten ns).take f) := by
+  simp only [aheadN, aheadP, flatIdx_eq_sum, and_self]
+
+/-! ### 2. every open cursor survives every mutation -/
+
+/-- Inserting a key the store does not hold (`iwkv_put`, any level drawn, with or without
+    `IWKV_NO_OVERWRITE`), through every branch of `_lx_addkv` — plain insertion into the node,
+    "add to upper", a fresh node at the front, a fresh node after a full node, the split at the
+    pivot with the record going left or right: for every position `p` a cursor may stand on,
+    `fix p` (where that cursor stands afterwards) is usable, and what lies ahead of it — the newborn
+    filtered out — is exactly what lay ahead before, in both directions. Nothing is lost, nothing is
+    repeated, order is kept; only the newborn may have been added. -/
+theorem put_new_keeps_cursors [DecidableEq K] (st : StrictTotal gt) (d : Db K V) (k : K) (v : V) (noOverwrite : Bool)
+    (lvl : Nat) (hk : ∀ r ∈ flatten d.nodes, r.1 ≠ k) :
+    ∃ fix, CursVia fix d (put gt d k v noOverwrite lvl).1 ∧
+      ∀ p, CurOk d.nodes p →
+        CurOk (put gt d k v noOverwrite lvl).1.nodes (fix p) ∧
+        (aheadN (put gt d k v noOverwrite lvl).1.nodes (fix p)).filter (keyNe k) = aheadN d.nodes p ∧
+        (aheadP (put gt d k v noOverwrite lvl).1.nodes (fix p)).filter (keyNe k) = aheadP d.nodes p :=
+  put_new_cursors st d k v noOverwrite lvl hk
+
+/-- Overwriting the value of a key the store holds: no cursor moves; what lies ahead of any usable
+    position is unchanged except for the value of that key. -/
+theorem put_overwrite_keeps_cursors [DecidableEq K] (st : StrictTotal gt) (d : Db K V) (inv : NodeInv gt d.nodes)
+    (k : K) (v : V) (lvl : Nat) {av : V} (hm : (k, av) ∈ flatten d.nodes) :
+    (put gt d k v false lvl).1.curs = d.curs ∧
+    ∀ p, CurOk d.nodes p → CurOk (put gt d k v false lvl).1.nodes p ∧
+      aheadN (put gt d k v false lvl).1.nodes p = (aheadN d.nodes p).map (setVal k v) ∧
+      aheadP (put gt d k v false lvl).1.nodes p = (aheadP d.nodes p).map (setVal k v) :=
+  put_overwrite_cursors st d inv k v lvl hm
+
+/-- `iwkv_cursor_set` through any cursor: likewise. -/
+theorem cursor_set_keeps_cursors [DecidableEq K] (st : StrictTotal gt) (d : Db K V) (inv : NodeInv gt d.nodes)
+    (p0 : CPos) (v : V) {k : K} {ov : V} (h : curRec d p0 = some (k, ov)) :
+    (curSet d p0 v).curs = d.curs ∧
+    ∀ p, CurOk d.nodes p → CurOk (curSet d p0 v).nodes p ∧
+      aheadN (curSet d p0 v).nodes p = (aheadN d.nodes p).map (setVal k v) ∧
+      aheadP (curSet d p0 v).nodes p = (aheadP d.nodes p).map (setVal k v) :=
+  curSet_cursors st d inv p0 v h
+
+/-- `iwkv_del` of any key (present or not; slot removal with the skip marks of `_sblk_rmkv`, or
+    removal of the whole node with the three cursor cases of `_lx_del_sblk_lw`): for every position
+    `p`, `fix p` is usable (possibly a pseudo position) and what lies ahead of it is exactly what lay
+    ahead of `p` minus the record with key `k` — every record that was ahead and was not deleted is
+    still ahead, in order, the deleted one is not, nothing else appears; in both directions. -/
+theorem del_keeps_cursors [DecidableEq K] (st : StrictTotal gt) (d : Db K V) (inv : NodeInv gt d.nodes) (k : K) :
+    ∃ fix, CursVia fix d (del gt d k).1 ∧
+      ∀ p, CurOk d.nodes p →
+        CurOk (del gt d k).1.nodes (fix p) ∧
+        aheadN (del gt d k).1.nodes (fix p) = (aheadN d.nodes p).filter (keyNe k) ∧
+        aheadP (del gt d k).1.nodes (fix p) = (aheadP d.nodes p).filter (keyNe k) :=
+  del_cursors st d inv k
+
+/-- `iwkv_cursor_del` through a cursor standing at `p0` on a record with key `k`: the same for every
+    open cursor — including the deleting cursor itself (`p = p0`), which is what "deleting the record
+    under a cursor and moving on visits each remaining record exactly once" needs: by `scan_from`,
+    the NEXT calls that follow return `(aheadN d.nodes p0).filter (keyNe k)`. -/
+theorem cursor_del_keeps_cursors [DecidableEq K] (st : StrictTotal gt) (d : Db K V) (inv : NodeInv gt d.nodes)
+    (p0 : CPos) {k : K} {ov : V} (h : curRec d p0 = some (k, ov)) :
+    ∃ fix, CursVia fix d (curDel d p0) ∧
+      ∀ p, CurOk d.nodes p →
+        CurOk (curDel d p0).nodes (fix p) ∧
+        aheadN (curDel d p0).nodes (fix p) = (aheadN d.nodes p).filter (keyNe k) ∧
+        aheadP (curDel d p0).nodes (fix p) = (aheadP d.nodes p).filter (keyNe k) :=
+  curDel_cursors st d inv p0 h
+
+/-- what `CursVia` means for a cursor id: its new position is `fix` of its old one -/
+theorem cursVia_lookup {fix : CPos → CPos} {d d' : Db K V} (h : CursVia fix d d') (c : Nat) :
+    curPos d' c = (curPos d c).map fix :=
+  cursVia_curPos h c
+
+end
+
 end IwModel.C09
